@@ -237,11 +237,11 @@ fn senc_cipher_same(a: &ServerEncrypterHalf, b: &ServerEncrypterHalf) -> bool {
     ich::inner_same(eh::server_enc_inner(a), eh::server_enc_inner(b))
 }
 
-/// C11: client-header helpers on both sides == raw operation on the wire layout.
+/// C11: client-header helpers on the client == raw operation on the wire layout.
 #[kani::proof]
 #[kani::unwind(258)]
 #[kani::stub(crate::wrath_header::inner_crypto::InnerCrypto::apply, ich::pad_apply_inner)]
-fn c11_wrath_typed_helpers() {
+fn c11_wrath_client_header_enc() {
     let size: u16 = kani::any();
     let op32: u32 = kani::any();
     let sz = size.to_be_bytes();
@@ -262,6 +262,15 @@ fn c11_wrath_typed_helpers() {
     cc.encrypt(&mut x);
     assert!(x == raw && cenc_same(&cc.encrypt, &raw_e) && cdec_same(&cc.decrypt, &cd0), "C11: wrath facade encrypt differs");
 
+    kani::cover!(size == 0x0102 && op32 == 0x0A0B0C0D, "asymmetric header");
+}
+
+/// C11: client-header helpers on the server == raw operation on the wire layout.
+#[kani::proof]
+#[kani::unwind(258)]
+#[kani::stub(crate::wrath_header::inner_crypto::InnerCrypto::apply, ich::pad_apply_inner)]
+fn c11_wrath_client_header_dec() {
+    let se0 = eh::any_server_enc();
     // server side decrypt of a client header
     let wire: [u8; 6] = kani::any();
     let sd0 = dh::any_server_dec();
@@ -271,7 +280,6 @@ fn c11_wrath_typed_helpers() {
     let exp = ClientHeader { size: u16::from_be_bytes([p[0], p[1]]), opcode: u32::from_le_bytes([p[2], p[3], p[4], p[5]]) };
     let mut d1 = sd0.clone();
     assert!(d1.decrypt_client_header(wire) == exp && sdec_same(&d1, &raw_d), "C11: wrath decrypt_client_header differs from raw");
-    let se0 = eh::any_server_enc();
     let mut sc = ServerCrypto { decrypt: sd0.clone(), encrypt: se0.clone() };
     assert!(sc.decrypt_client_header(wire) == exp && sdec_same(&sc.decrypt, &raw_d) && senc_cipher_same(&sc.encrypt, &se0), "C11: wrath facade decrypt_client_header differs");
     let mut sc = ServerCrypto { decrypt: sd0.clone(), encrypt: se0.clone() };
@@ -281,6 +289,16 @@ fn c11_wrath_typed_helpers() {
     sc.decrypt(&mut q);
     assert!(q == p && sdec_same(&sc.decrypt, &raw_d) && senc_cipher_same(&sc.encrypt, &se0), "C11: wrath facade decrypt differs");
 
+    kani::cover!(true, "client header decoded");
+}
+
+/// C11: server-header helpers on the server == raw operation on the wire layout (both lengths).
+#[kani::proof]
+#[kani::unwind(258)]
+#[kani::stub(crate::wrath_header::inner_crypto::InnerCrypto::apply, ich::pad_apply_inner)]
+fn c11_wrath_server_header_enc() {
+    let se0 = eh::any_server_enc();
+    let sd0 = dh::any_server_dec();
     // server header helpers == raw on the wire layout (small and large)
     let ssize: u32 = kani::any();
     let op16: u16 = kani::any();
@@ -312,6 +330,17 @@ fn c11_wrath_typed_helpers() {
     sc.encrypter().encrypt(&mut y3);
     assert!(y3 == y2, "C11: wrath server encrypter() accessor differs");
 
+    kani::cover!(n == 5, "large");
+    kani::cover!(n == 4, "small");
+}
+
+/// C11: server-header calls on the client == raw decrypt + layout (both lengths).
+#[kani::proof]
+#[kani::unwind(258)]
+#[kani::stub(crate::wrath_header::inner_crypto::InnerCrypto::apply, ich::pad_apply_inner)]
+fn c11_wrath_server_header_dec() {
+    let cd0 = dh::any_client_dec();
+    let ce0 = eh::any_client_enc();
     // client side: attempt / large == raw decrypt + layout
     let w5: [u8; 5] = kani::any();
     let mut raw_cd = cd0.clone();
@@ -350,13 +379,9 @@ fn c11_wrath_typed_helpers() {
 }
 
 /// C11: server reads a 6-byte client header through a faulty reader.
-#[kani::proof]
-#[kani::unwind(258)]
-#[kani::stub(crate::wrath_header::inner_crypto::InnerCrypto::apply, ich::pad_apply_inner)]
-fn c11_wrath_read_client() {
+fn c11_wrath_read_client_impl(facade: bool) {
     let sd0 = dh::any_server_dec_at(253);
     let se0 = eh::any_server_enc_at(252);
-    let facade: bool = kani::any();
     let mut rd = AnyReader::new();
     let mut raw_d = sd0.clone();
     let mut p = [rd.stream[0], rd.stream[1], rd.stream[2], rd.stream[3], rd.stream[4], rd.stream[5]];
@@ -379,15 +404,23 @@ fn c11_wrath_read_client() {
     }
     assert!(senc_cipher_same(&sc.encrypt, &se0), "C11: reading changed the encrypter");
 }
-
-/// C11: client reads a 4- or 5-byte server header through a faulty reader.
 #[kani::proof]
 #[kani::unwind(258)]
 #[kani::stub(crate::wrath_header::inner_crypto::InnerCrypto::apply, ich::pad_apply_inner)]
-fn c11_wrath_read_server() {
+fn c11_wrath_read_client() {
+    c11_wrath_read_client_impl(false);
+}
+#[kani::proof]
+#[kani::unwind(258)]
+#[kani::stub(crate::wrath_header::inner_crypto::InnerCrypto::apply, ich::pad_apply_inner)]
+fn c11_wrath_read_client_facade() {
+    c11_wrath_read_client_impl(true);
+}
+
+/// C11: client reads a 4- or 5-byte server header through a faulty reader.
+fn c11_wrath_read_server_impl(facade: bool) {
     let cd0 = dh::any_client_dec_at(253);
     let ce0 = eh::any_client_enc_at(252);
-    let facade: bool = kani::any();
     let mut rd = AnyReader::new();
     let w = [rd.stream[0], rd.stream[1], rd.stream[2], rd.stream[3], rd.stream[4]];
     // reference: the two-step calls on the delivered bytes
@@ -433,15 +466,23 @@ fn c11_wrath_read_server() {
     }
     assert!(cenc_same(&cc.encrypt, &ce0), "C11: reading changed the encrypter");
 }
-
-/// C11: Wrath write wrappers with a faulty writer.
 #[kani::proof]
 #[kani::unwind(258)]
 #[kani::stub(crate::wrath_header::inner_crypto::InnerCrypto::apply, ich::pad_apply_inner)]
-fn c11_wrath_write_client() {
+fn c11_wrath_read_server() {
+    c11_wrath_read_server_impl(false);
+}
+#[kani::proof]
+#[kani::unwind(258)]
+#[kani::stub(crate::wrath_header::inner_crypto::InnerCrypto::apply, ich::pad_apply_inner)]
+fn c11_wrath_read_server_facade() {
+    c11_wrath_read_server_impl(true);
+}
+
+/// C11: Wrath write wrappers with a faulty writer.
+fn c11_wrath_write_client_impl(facade: bool) {
     let ce0 = eh::any_client_enc_at(252);
     let cd0 = dh::any_client_dec_at(253);
-    let facade: bool = kani::any();
     let size: u16 = kani::any();
     let op32: u32 = kani::any();
     let mut ref_e = ce0.clone();
@@ -470,14 +511,22 @@ fn c11_wrath_write_client() {
     }
     assert!(wr.pos <= 6 && cenc_same(&cc.encrypt, &ref_e) && cdec_same(&cc.decrypt, &cd0), "C11: wrath write wrapper state differs");
 }
-
 #[kani::proof]
 #[kani::unwind(258)]
 #[kani::stub(crate::wrath_header::inner_crypto::InnerCrypto::apply, ich::pad_apply_inner)]
-fn c11_wrath_write_server() {
+fn c11_wrath_write_client() {
+    c11_wrath_write_client_impl(false);
+}
+#[kani::proof]
+#[kani::unwind(258)]
+#[kani::stub(crate::wrath_header::inner_crypto::InnerCrypto::apply, ich::pad_apply_inner)]
+fn c11_wrath_write_client_facade() {
+    c11_wrath_write_client_impl(true);
+}
+
+fn c11_wrath_write_server_impl(facade: bool) {
     let se0 = eh::any_server_enc_at(252);
     let sd0 = dh::any_server_dec_at(253);
-    let facade: bool = kani::any();
     let size: u32 = kani::any();
     let op16: u16 = kani::any();
     kani::assume(size <= 0x7F_FFFF);
@@ -506,6 +555,18 @@ fn c11_wrath_write_server() {
         i += 1;
     }
     assert!(wr.pos <= n && senc_cipher_same(&sc.encrypt, &ref_e) && sdec_same(&sc.decrypt, &sd0), "C11: wrath write wrapper state differs");
+}
+#[kani::proof]
+#[kani::unwind(258)]
+#[kani::stub(crate::wrath_header::inner_crypto::InnerCrypto::apply, ich::pad_apply_inner)]
+fn c11_wrath_write_server() {
+    c11_wrath_write_server_impl(false);
+}
+#[kani::proof]
+#[kani::unwind(258)]
+#[kani::stub(crate::wrath_header::inner_crypto::InnerCrypto::apply, ich::pad_apply_inner)]
+fn c11_wrath_write_server_facade() {
+    c11_wrath_write_server_impl(true);
 }
 
 // =================================================================================================
